@@ -561,8 +561,8 @@ impl ast::Expr {
             ast::Expr::LitInt { .. } => ExprType::Value(ScalarType::Int),
             ast::Expr::LitString { .. } => ExprType::Value(ScalarType::String),
 
-            ast::Expr::EnumConst { .. }
-            => ExprType::Value(ScalarType::Int),
+            ast::Expr::EnumConst { ref enum_name, .. }
+            => ExprType::Value(ctx.defs.enum_ty(enum_name)),
 
             ast::Expr::Var(ref var)
             => ExprType::Value(ctx.var_read_ty_from_ast(var).as_known_ty().expect("already type-checked")),
